@@ -1,0 +1,138 @@
+//! Verification hook H1 (only compiled with `--cfg capy_verif`).
+//!
+//! When the environment variable `CAPY_VERIF_SCHED_TRACE` names a file, every
+//! observable step of the scheduling loop in `InferenceCtx::finish` is appended
+//! to it, one event per line. With the variable unset this does nothing.
+//!
+//! The hook only *reads* the scheduler through its public API; it never
+//! changes what is scheduled.
+//!
+//! Line format (fields separated by a tab, list items by `|`):
+//!
+//! ```text
+//! start   <len>   <item>|<item>|...           items in `extend` order
+//! round   <len>   ok <item>|...               `peek_all()` returned Ok(list)
+//! round   <len>   cycle in_cycle=<b> <item>|...  `peek_all()` was Err; list is `peek_all_cyclic()`
+//! offered <item>|...                          the list the loop is going to run (after sorting)
+//! done    <item>  <len>                       task finished, `remove` was called
+//! deps    <item>  <len>   <dep>|...           task yielded, `insert_deps` was called
+//! end                                         `is_empty()` became true
+//! ```
+//!
+//! `<item>` is `<exact id>~<readable name>`; the exact id is the `Debug` form of
+//! the `ConcreteLoc` without spaces, the readable name is `ConcreteLoc::debug`.
+
+use std::{fs::File, io::Write};
+
+use hir::common::ConcreteLoc;
+use interner::Interner;
+use topo::TopoSort;
+
+pub(crate) struct SchedTrace {
+    out: Option<File>,
+}
+
+fn item(loc: ConcreteLoc, interner: &Interner) -> String {
+    let mut id = format!("{loc:?}");
+    id.retain(|c| !c.is_whitespace());
+    format!("{}~{}", id, loc.debug(interner))
+}
+
+fn list<'a>(locs: impl IntoIterator<Item = &'a ConcreteLoc>, interner: &Interner) -> String {
+    let mut res = String::new();
+    for (idx, loc) in locs.into_iter().enumerate() {
+        if idx != 0 {
+            res.push('|');
+        }
+        res.push_str(&item(*loc, interner));
+    }
+    res
+}
+
+impl SchedTrace {
+    pub(crate) fn from_env() -> Self {
+        let out = std::env::var_os("CAPY_VERIF_SCHED_TRACE").and_then(|path| {
+            std::fs::OpenOptions::new()
+                .create(true)
+                .append(true)
+                .open(path)
+                .ok()
+        });
+        Self { out }
+    }
+
+    fn line(&mut self, line: String) {
+        if let Some(out) = &mut self.out {
+            let _ = writeln!(out, "{line}");
+        }
+    }
+
+    pub(crate) fn start(&mut self, topo: &TopoSort<ConcreteLoc>, interner: &Interner) {
+        if self.out.is_none() {
+            return;
+        }
+        // right after `extend` nothing has dependencies, so `peek_all` lists
+        // every item in insertion order
+        let all = topo.peek_all().unwrap_or_default();
+        self.line(format!("start\t{}\t{}", topo.len(), list(all, interner)));
+    }
+
+    pub(crate) fn round(&mut self, topo: &TopoSort<ConcreteLoc>, interner: &Interner) {
+        if self.out.is_none() {
+            return;
+        }
+        match topo.peek_all() {
+            Ok(ready) => self.line(format!("round\t{}\tok\t{}", topo.len(), list(ready, interner))),
+            Err(_) => {
+                let cyclic = topo.peek_all_cyclic().unwrap_or_default();
+                self.line(format!(
+                    "round\t{}\tcycle\tin_cycle={}\t{}",
+                    topo.len(),
+                    topo.in_cycle(),
+                    list(cyclic, interner)
+                ));
+            }
+        }
+    }
+
+    pub(crate) fn offered(&mut self, leaves: &[ConcreteLoc], interner: &Interner) {
+        if self.out.is_none() {
+            return;
+        }
+        self.line(format!("offered\t{}", list(leaves, interner)));
+    }
+
+    pub(crate) fn task_done(
+        &mut self,
+        loc: ConcreteLoc,
+        topo: &TopoSort<ConcreteLoc>,
+        interner: &Interner,
+    ) {
+        if self.out.is_none() {
+            return;
+        }
+        self.line(format!("done\t{}\t{}", item(loc, interner), topo.len()));
+    }
+
+    pub(crate) fn task_deps(
+        &mut self,
+        loc: ConcreteLoc,
+        deps: &[ConcreteLoc],
+        topo: &TopoSort<ConcreteLoc>,
+        interner: &Interner,
+    ) {
+        if self.out.is_none() {
+            return;
+        }
+        self.line(format!(
+            "deps\t{}\t{}\t{}",
+            item(loc, interner),
+            topo.len(),
+            list(deps, interner)
+        ));
+    }
+
+    pub(crate) fn end(&mut self) {
+        self.line("end".to_string());
+    }
+}
